@@ -107,6 +107,8 @@ fn strategy() -> BoxedStrategy<DefSpec> {
             for (i, (bl, as_token, as_skip)) in blits.into_iter().enumerate() {
                 let mut p = if as_token && !bl.contains(&b'[') && !bl.contains(&b'(') && !bl.contains(&b'+') { PatSpec::token(LitSpec::bytes(bl.to_vec())) } else { PatSpec::regex(LitSpec::bytes(bl.to_vec())) };
                 p.priority = Some(prios[i % prios.len()] + i);
+                // byte-string items also with ignore(case): ASCII-only folding, still bytes
+                p.ignore_case = (prios[i % prios.len()] + i) % 3 == 0;
                 if as_skip && p.kind == model::spec::PatKind::Regex {
                     def.skips.push(p);
                 } else {
